@@ -26,10 +26,10 @@ def run(ctx):
         prog, info = load_program(cfg, "e57")
         ctx.configs[cfg] = info
         ctx.cfg = cfg
-        width_rules.width_formula(ctx, prog, "R1")
-        codec_rules.stored_form(ctx, prog, "R2")
-        codec_rules.zero_width_wiring(ctx, prog, "R3")
-        codec_rules.extract_window(ctx, prog, "R4")
-        codec_rules.append_shape(ctx, prog, "R4")
-        codec_rules.add_bits_shape(ctx, prog, "R5")
+        ctx.call(width_rules.width_formula, prog, "R1")
+        ctx.call(codec_rules.stored_form, prog, "R2")
+        ctx.call(codec_rules.zero_width_wiring, prog, "R3")
+        ctx.call(codec_rules.extract_window, prog, "R4")
+        ctx.call(codec_rules.append_shape, prog, "R4")
+        ctx.call(codec_rules.add_bits_shape, prog, "R5")
     ctx.cfg = None
